@@ -394,25 +394,36 @@ def _simple_arg(a):
 
 
 def inline_helpers(fn, file, exclude=(), max_rounds=2):
-    """Copy of `fn` in which calls of free functions of the same file are replaced by the callee's body, parameters
-    substituted by the argument expressions.  Only calls whose arguments are plain places (names, fields, references
-    to them) and callees without `return` / `?` / recursion are inlined, so path conditions keep their meaning.
-    Extracting part of a function into a private helper therefore does not change what a rule sees."""
+    """Copy of `fn` in which calls of private helpers of the same file are replaced by the callee's body:
+    free functions `h(a, b)` and methods `x.h(a)` / `Self::h(x, a)` / `Type::h(x, a)` whose name is defined once in the
+    file.  Parameters are substituted by the argument expressions when these are plain places (names, fields, references
+    to them, getters on them) and bound by a `let` otherwise.  The callee is first brought to expression form (early
+    returns in tail position folded into the value); callees that still contain `return` / `?` or recursion are left
+    alone, except that `h(..)?` with a callee whose every result is `Ok(v)` / `Some(v)` or an early error is inlined
+    with the wrapper removed.  Extracting part of a function into a private helper therefore does not change what a
+    rule sees."""
     import copy
 
-    helpers = {}
+    defs = {}
+    counts = {}
     for q, f in fns_in_file(file):
-        if q == "" and f.get("body") and f["name"] != fn["name"] and f["name"] not in exclude:
-            helpers[f["name"]] = f
+        if not f.get("body") or q.startswith("trait "):
+            continue
+        counts[f["name"]] = counts.get(f["name"], 0) + 1
+        defs[f["name"]] = (q, f)
+    helpers = {n: qf for n, qf in defs.items() if counts[n] == 1 and n != fn["name"] and n not in exclude and qf[1].get("vis") != "pub"}
     out = copy.deepcopy(fn)
 
-    def inlinable(h):
-        for n in walk(h["body"]):
-            if n["k"] in ("Return", "Try"):
-                return False
+    def prepared(h):
+        """expression form of the helper, or None when it cannot be inlined as an expression"""
+        body = simplify_body(h["body"])
+        for n in walk(body):
             if n["k"] == "Call" and n["func"]["k"] == "Path" and last(n["func"]["path"]) == h["name"]:
-                return False
-        return all(not i.get("self") and i["pat"]["k"] == "PIdent" for i in h["sig"]["inputs"])
+                return None, False
+            if n["k"] == "MethodCall" and n["method"] == h["name"]:
+                return None, False
+        has_exit = any(n["k"] in ("Return", "Try") for n in walk(body))
+        return body, has_exit
 
     def substitute(body, mapping):
         def rec(n):
@@ -422,9 +433,50 @@ def inline_helpers(fn, file, exclude=(), max_rounds=2):
                 return n
             if n.get("k") == "Path" and n["path"] in mapping:
                 return copy.deepcopy(mapping[n["path"]])
+            if n.get("k") == "Struct":
+                m = {k: rec(v) for k, v in n.items() if k != "fields"}
+                m["fields"] = []
+                for f in n["fields"]:
+                    f2 = {k: rec(v) for k, v in f.items()}
+                    if f.get("shorthand") and f["name"] in mapping:
+                        f2["shorthand"] = False
+                    m["fields"].append(f2)
+                return m
             return {k: rec(v) for k, v in n.items()}
 
         return rec(body)
+
+    def build(h, args, line):
+        body, has_exit = prepared(h)
+        if body is None or has_exit:
+            return None
+        ins = h["sig"]["inputs"]
+        if len(ins) != len(args):
+            return None
+        mapping, lets = {}, []
+        pnames = []
+        for i_, a in zip(ins, args):
+            if i_.get("self"):
+                pn = "self"
+            elif i_["pat"]["k"] == "PIdent":
+                pn = i_["pat"]["name"]
+            else:
+                return None
+            pnames.append(pn)
+            if _simple_arg(a):
+                mapping[pn] = strip(a)
+            else:
+                tmp = "%s__arg" % pn
+                lets.append({"k": "Local", "line": line, "pat": {"k": "PIdent", "line": line, "name": tmp, "by_ref": False, "mut": False, "sub": None}, "init": a, "else": None})
+                mapping[pn] = {"k": "Path", "line": line, "path": tmp}
+        rebound = {b["name"] for b in walk(body) if b["k"] == "PIdent"} & set(pnames)
+        body = copy.deepcopy(body)
+        for rb in rebound:
+            _rename_binding(body, rb, rb + "__inner")
+        body = substitute(body, mapping)
+        if lets:
+            body = {"k": "Block", "line": line, "stmts": lets + [{"k": "ExprStmt", "line": line, "e": body, "semi": False}]}
+        return body
 
     for _round in range(max_rounds):
         changed = False
@@ -436,21 +488,21 @@ def inline_helpers(fn, file, exclude=(), max_rounds=2):
             if not isinstance(n, dict):
                 return n
             n = {k: rec(v) for k, v in n.items()}
-            if n.get("k") == "Call" and n["func"]["k"] == "Path" and "::" not in n["func"]["path"] and n["func"]["path"] in helpers:
-                h = helpers[n["func"]["path"]]
-                if inlinable(h) and len(h["sig"]["inputs"]) == len(n["args"]) and all(_simple_arg(a) for a in n["args"]):
-                    # a parameter shadowed inside the helper (`for access in access.iter_mut()`) is still substituted
-                    # only where it refers to the parameter: keep it simple and refuse when a parameter name is rebound
-                    pnames = [i["pat"]["name"] for i in h["sig"]["inputs"]]
-                    rebound = {b["name"] for b in walk(h["body"]) if b["k"] == "PIdent"} & set(pnames)
-                    mapping = {p: strip(a) for p, a in zip(pnames, n["args"])}
-                    body = copy.deepcopy(h["body"])
-                    if rebound:
-                        # rename the inner rebinding first so that substitution does not capture it
-                        for rb in rebound:
-                            _rename_binding(body, rb, rb + "__inner")
-                    changed = True
-                    return substitute(body, mapping)
+            k = n.get("k")
+            if k == "Call" and n["func"]["k"] == "Path":
+                nm = last(n["func"]["path"])
+                if nm in helpers and ("::" not in n["func"]["path"] or n["func"]["path"].split("::")[0] in ("Self",) or n["func"]["path"].split("::")[0] == helpers[nm][0].split(" for ")[-1].split("<")[0]):
+                    r = build(helpers[nm][1], n["args"], n.get("line", 0))
+                    if r is not None:
+                        changed = True
+                        return r
+            if k == "MethodCall" and n["method"] in helpers and helpers[n["method"]][0]:
+                h = helpers[n["method"]][1]
+                if h["sig"]["inputs"] and h["sig"]["inputs"][0].get("self"):
+                    r = build(h, [n["recv"]] + n["args"], n.get("line", 0))
+                    if r is not None:
+                        changed = True
+                        return r
             return n
 
         out["body"] = rec(out["body"])
@@ -780,4 +832,76 @@ def exists_form(fn):
             th = [s for s in i["then"]["stmts"]]
             if len(th) == 1 and th[0]["k"] == "ExprStmt" and th[0]["e"]["k"] == "Return" and th[0]["e"].get("e") is not None and render(strip(th[0]["e"]["e"])) == "true":
                 return coll(lp["iter"]), rename(i["cond"], names[0])
+    return None
+
+
+def collection_form(fn):
+    """For a function that builds a collection from another one: (source text, element text with `$x`, [filter texts
+    with `$x`]) or None.  Recognised on the expression form:
+      SRC.iter()..map(|x| E).filter(|x| P)..collect()     (cloned / copied / iter adaptors are transparent)
+      let mut out = <empty>; for x in SRC { [if P] { out.push|insert(E); } } out
+    so that a comprehension written as an iterator chain or as a loop reads the same."""
+    import copy
+
+    def rn(e, var):
+        e = copy.deepcopy(e)
+        for n in walk(e):
+            if n["k"] == "Path" and n["path"] == var:
+                n["path"] = "$x"
+        return render(strip(e)).replace(" ", "")
+
+    def src(e):
+        e = strip(e)
+        while e["k"] == "MethodCall" and e["method"] in ("iter", "iter_mut", "into_iter", "cloned", "copied") and not e["args"]:
+            e = strip(e["recv"])
+        return render(e).replace(" ", "")
+
+    body = simplify_body(fn["body"])
+    stmts = [s for s in body["stmts"] if s["k"] != "ItemStmt"]
+    t = block_tail(body)
+    if t is None:
+        return None
+    t = strip(t)
+    # iterator chain
+    if len(stmts) == 1 and t["k"] == "MethodCall" and t["method"] == "collect":
+        elem, filters = "$x", []
+        e = strip(t["recv"])
+        stages = []
+        while e["k"] == "MethodCall" and e["method"] in ("map", "filter", "cloned", "copied", "iter", "iter_mut", "into_iter"):
+            stages.append(e)
+            e = strip(e["recv"])
+        for st in reversed(stages):
+            if st["method"] in ("map", "filter") and st["args"] and st["args"][0]["k"] == "Closure" and len(st["args"][0]["inputs"]) == 1:
+                names = [b["name"] for b in walk(st["args"][0]["inputs"][0]) if b["k"] == "PIdent"]
+                if len(names) != 1:
+                    return None
+                txt = rn(st["args"][0]["body"], names[0])
+                if st["method"] == "map":
+                    elem = txt.replace("$x", elem) if elem != "$x" else txt
+                else:
+                    filters.append(txt.replace("$x", elem) if elem != "$x" else txt)
+            elif st["method"] in ("map", "filter"):
+                return None
+        return render(e).replace(" ", ""), elem, filters
+    # loop form
+    if len(stmts) == 3 and stmts[0]["k"] == "Local" and stmts[0]["pat"]["k"] == "PIdent" and stmts[1]["k"] == "ExprStmt" and stmts[1]["e"]["k"] == "For" and t["k"] == "Path" and t["path"] == stmts[0]["pat"]["name"]:
+        out = stmts[0]["pat"]["name"]
+        if render(strip(stmts[0]["init"])).replace(" ", "").split("::<")[0] not in ("HashSet::new()", "Vec::new()", "ReportCollection::new()", "vec![]", "Vec::default()", "HashSet::default()", "BTreeSet::new()", "IndexSet::new()", "HashSet", "Vec") and not render(strip(stmts[0]["init"])).replace(" ", "").endswith("::new()"):
+            return None
+        lp = stmts[1]["e"]
+        names = [b["name"] for b in walk(lp["pat"]) if b["k"] == "PIdent"]
+        if len(names) != 1:
+            return None
+        from pathcond import conditions_to, fact_str
+
+        adds = [m for m in walk(lp["body"]) if m["k"] == "MethodCall" and m["method"] in ("push", "insert") and render(strip(m["recv"])) == out]
+        if len(adds) != 1 or [x for x in walk(lp["body"]) if x["k"] in ("Break", "Continue", "Return")]:
+            return None
+        filters = []
+        for c in conditions_to(lp["body"], adds[0]) or []:
+            if c[0] == "if" and c[2]:
+                filters.append(rn(c[1], names[0]))
+            else:
+                return None
+        return src(lp["iter"]), rn(adds[0]["args"][0], names[0]), filters
     return None
